@@ -730,7 +730,7 @@ theorem exprSem_not {inputs : List String} {ρ : Env} {σ0 : FState} {r : String
 
 /-! ### argument lists, `And` -/
 
-def ArgsSem (inputs : List String) (ρ : Env) (σ0 : FState) (r : String) (as : List BExp) : Prop :=
+def ArgsSem (inputs : List String) (ρ : Env) (σ0 : FState) (_r : String) (as : List BExp) : Prop :=
   ∀ {rs : List Nat} {s s' : CState}, (compileArgs as).run s = .ok (rs, s') →
     Pre inputs ρ σ0 s →
     (∀ p ∈ s.expq, ∀ c ∈ compSubsList as, (p.1 == c) = false) →
@@ -1236,7 +1236,7 @@ theorem exprSem_or {inputs : List String} {ρ : Env} {σ0 : FState} {r : String}
 
 /-! ### `Xor`: accumulate every argument into one qubit -/
 
-def XorSem (inputs : List String) (ρ : Env) (σ0 : FState) (r : String) (as : List BExp) : Prop :=
+def XorSem (inputs : List String) (ρ : Env) (σ0 : FState) (_r : String) (as : List BExp) : Prop :=
   ∀ (d : Nat) {a : Nat} {s s' : CState}, (compileXorArgs as d).run s = .ok (a, s') →
     Pre inputs ρ σ0 s →
     (∀ p ∈ s.expq, ∀ c ∈ compSubsList as, (p.1 == c) = false) →
@@ -1697,6 +1697,84 @@ theorem uncompute_gates {r : List Nat} {s s' : CState} (h : uncompute.run s = .o
     have := modQC_run hm; subst this
     exact ⟨extra, e1, fun g hg => by simpa using e2 g hg, e3, e4⟩
 
+theorem uncomputeAllLoop_gates {keep alreadyFree : List Nat} {off : Nat} :
+    ∀ (gs : List AGate) {u : Unit} {s s' : CState},
+    (uncomputeAllLoop keep alreadyFree off gs).run s = .ok (u, s') →
+    ∃ extra, s'.qc.gates.toList = s.qc.gates.toList ++ extra ∧
+      (∀ g ∈ extra, keep.contains g.target = false) ∧ s'.qc.qmap = s.qc.qmap ∧
+      s'.qc.numQubits = s.qc.numQubits
+  | [], u, s, s', h => by
+    unfold uncomputeAllLoop at h
+    obtain ⟨_, rfl⟩ := run_pure_ok.mp h
+    exact ⟨[], by simp, by simp, rfl, rfl⟩
+  | g :: gs, u, s, s', h => by
+    unfold uncomputeAllLoop at h
+    dsimp only at h
+    obtain ⟨qc, s1, hq, h1⟩ := run_bind_ok.mp h
+    obtain ⟨rfl, rfl⟩ := getQC_run hq
+    rcases run_ite_ok.mp h1 with ⟨_, h1⟩ | ⟨hskip, h1⟩
+    · exact uncomputeAllLoop_gates gs h1
+    · have hk : keep.contains g.target = false := by
+        cases hc : keep.contains g.target with
+        | false => rfl
+        | true => exfalso; apply hskip; rw [hc]; simp
+      have rest : ∀ {s2 : CState},
+          StateT.run (do
+            let b ← appendG g.cls g.wires (some (g.gid + off, g.gid))
+            if b = true then do
+              event "staleReplay"
+              uncomputeAllLoop keep alreadyFree off gs
+            else uncomputeAllLoop keep alreadyFree off gs : M Unit) s2 = .ok (u, s') →
+          s2.qc.gates = s1.qc.gates → s2.qc.qmap = s1.qc.qmap →
+          s2.qc.numQubits = s1.qc.numQubits →
+          ∃ extra, s'.qc.gates.toList = s1.qc.gates.toList ++ extra ∧
+            (∀ g ∈ extra, keep.contains g.target = false) ∧ s'.qc.qmap = s1.qc.qmap ∧
+            s'.qc.numQubits = s1.qc.numQubits := by
+        intro s2 h2 hg2 hq2 hn2
+        obtain ⟨b, s3, happ, h3⟩ := run_bind_ok.mp h2
+        have ha := appendG_run happ
+        obtain ⟨g', _, hgw, hgates, _⟩ := ha.gates
+        have fin : ∀ {s4 : CState}, s4.qc = s3.qc →
+            (uncomputeAllLoop keep alreadyFree off gs).run s4 = .ok (u, s') →
+            ∃ extra, s'.qc.gates.toList = s1.qc.gates.toList ++ extra ∧
+              (∀ g ∈ extra, keep.contains g.target = false) ∧ s'.qc.qmap = s1.qc.qmap ∧
+              s'.qc.numQubits = s1.qc.numQubits := by
+          intro s4 hq4 h4
+          obtain ⟨extra, e1, e2, e3, e4⟩ := uncomputeAllLoop_gates gs h4
+          refine ⟨g' :: extra, ?_, ?_, ?_, ?_⟩
+          · rw [e1, hq4, hgates, hg2]; simp
+          · intro x hx
+            simp only [List.mem_cons] at hx
+            rcases hx with rfl | hx
+            · have : x.target = g.target := by unfold AGate.target; rw [hgw]
+              rw [this]; exact hk
+            · exact e2 x hx
+          · rw [e3, hq4, ha.qmap, hq2]
+          · rw [e4, hq4, ha.nq, hn2]
+        rcases run_ite_ok.mp h3 with ⟨_, h3⟩ | ⟨_, h3⟩
+        · obtain ⟨u1, s4, hev, h4⟩ := run_bind_ok.mp h3
+          have := event_run hev; subst this
+          exact fin (s4 := { s3 with events := s3.events ++ ["staleReplay"] }) rfl h4
+        · exact fin rfl h3
+      rcases run_ite_ok.mp h1 with ⟨_, h1⟩ | ⟨_, h1⟩
+      · obtain ⟨u1, s2, hm, h2⟩ := run_bind_ok.mp h1
+        have := modQC_run hm; subst this
+        exact rest h2 rfl rfl rfl
+      · exact rest h1 rfl rfl rfl
+
+theorem uncomputeAll_gates {keep : List Nat} {u : Unit} {s s' : CState}
+    (h : (uncomputeAll keep).run s = .ok (u, s')) :
+    ∃ extra, s'.qc.gates.toList = s.qc.gates.toList ++ extra ∧
+      (∀ g ∈ extra, keep.contains g.target = false) ∧ s'.qc.qmap = s.qc.qmap ∧
+      s'.qc.numQubits = s.qc.numQubits := by
+  unfold uncomputeAll at h
+  obtain ⟨qc, s1, hq, h1⟩ := run_bind_ok.mp h
+  obtain ⟨rfl, rfl⟩ := getQC_run hq
+  obtain ⟨u1, s2, hloop, hm⟩ := run_bind_ok.mp h1
+  obtain ⟨extra, e1, e2, e3, e4⟩ := uncomputeAllLoop_gates _ hloop
+  have := modQC_run hm; subst this
+  exact ⟨extra, e1, e2, e3, e4⟩
+
 theorem removeIdentities_run {u : Unit} {s s' : CState} (h : removeIdentities.run s = .ok (u, s')) :
     s'.qc.gates.toList = removeIdentitiesList s.qc.gates.toList ∧ s'.qc.qmap = s.qc.qmap ∧
       s'.qc.numQubits = s.qc.numQubits := by
@@ -1827,17 +1905,20 @@ theorem topExpr_sem {inputs : List String} {ρ : Env} {σ0 : FState} {r : String
     · rw [hmk] at h; cases h
     · exact h.2 rfl rfl
 
-/-- **one definition `r = e` in the fragment, no final uncomputation**: after every successful run of
-`compile` the qubit mapped to `r` ends with the value of `e`, on every input `x` -/
+/-- **one definition `r = e` in the fragment**, with or without final uncomputation (`uncompute_all`
+never replays a gate whose target is kept, and the qubit of a requested return name is kept): after
+every successful run of `compile` the qubit mapped to `r` ends with the value of `e`, on every input -/
 theorem compile_single_sem {inputs : List String} {r : String} {e : BExp} {rets : List String}
-    {cs : List Nat} {s : CState}
-    (h : (compile inputs [(r, e)] (some rets) false).run { choices := cs } = .ok ((), s))
+    {unc : Bool} {cs : List Nat} {s : CState}
+    (h : (compile inputs [(r, e)] (some rets) unc).run { choices := cs } = .ok ((), s))
+    (hr : unc = true → r ∈ rets)
     (hnd : inputs.Nodup) (hfresh : ∀ n ∈ inputs, n ≠ r ∧ reservedName n = false)
     (hov : overInputs inputs e = true) (htl : treeLike e = true)
     (x : List Bool) (hx : x.length = inputs.length) :
     ∃ q, dictGet? s.qc.qmap r = some q ∧
       (runClassical s.qc.gates.toList (initState x s.qc.numQubits)).getD q false =
         e.eval (envOf (inputs.zip x)) := by
+  have hgs : Good s := (compile_ok h).1
   unfold compile at h
   obtain ⟨u0, s0, hmod, h1⟩ := run_bind_ok.mp h
   have := run_modify_ok.mp hmod; subst this
@@ -1852,12 +1933,18 @@ theorem compile_single_sem {inputs : List String} {r : String} {e : BExp} {rets 
   have hg2 := st2.good
   obtain ⟨u3, s3, hrem, h4⟩ := run_bind_ok.mp h3
   obtain ⟨hrg, hrq, hrn⟩ := removeIdentities_run hrem
-  have hs : s = s3 := by
+  have hfin : ∃ extra, s.qc.gates.toList = s3.qc.gates.toList ++ extra ∧
+      (∀ g ∈ extra, unc = true ∧ (rets.filterMap (dictGet? s3.qc.qmap)).contains g.target = false) ∧
+      s.qc.qmap = s3.qc.qmap ∧ s.qc.numQubits = s3.qc.numQubits := by
     dsimp only at h4
-    rcases run_ite_ok.mp h4 with ⟨hc, _⟩ | ⟨_, h4⟩
-    · cases hc
-    · exact (run_pure_ok.mp h4).2
-  subst hs
+    rcases run_ite_ok.mp h4 with ⟨hc, h4⟩ | ⟨_, h4⟩
+    · obtain ⟨qc, s4, hq, h5⟩ := run_bind_ok.mp h4
+      obtain ⟨rfl, rfl⟩ := getQC_run hq
+      obtain ⟨extra, e1, e2, e3, e4⟩ := uncomputeAll_gates h5
+      exact ⟨extra, e1, fun g hg => ⟨hc, e2 g hg⟩, e3, e4⟩
+    · obtain ⟨_, rfl⟩ := run_pure_ok.mp h4
+      exact ⟨[], by simp, by simp, rfl, rfl⟩
+  obtain ⟨extra', f1, f2, f3, f4⟩ := hfin
   -- ambient facts for this input
   have hn1' : s1.qc.numQubits = inputs.length := by rw [hn1]; simp
   have hnin2 : inputs.length ≤ s2.qc.numQubits := by rw [← hn1']; exact st2.nq_le
@@ -1912,13 +1999,28 @@ theorem compile_single_sem {inputs : List String} {r : String} {e : BExp} {rets 
       have := e2 g hg
       rw [ht, hm3, hqc2] at this
       exact hnm this
-  refine ⟨iret, ?_, ?_⟩
-  · rw [hrq, hqc5, e3]; exact hkey
-  · rw [hrg, removeIdentitiesList_sound _ (fun g hg => (hg2.gates_ok g hg).2.1)]
-    have hlen : (initState x s.qc.numQubits).length = s2.qc.numQubits := by
-      rw [initState_length x _ (by rw [hrn, hx]; exact hnin2), hrn]
-    have := congrFun (runF_spec s2.qc.gates.toList (initState x s.qc.numQubits)
-      (fun g hg w hw => by rw [hlen]; exact (hg2.gates_ok g hg).2.2.1 w hw)) iret
-    exact this.trans hcur
+  have hkey3 : dictGet? s3.qc.qmap r = some iret := by rw [hrq, hqc5, e3]; exact hkey
+  refine ⟨iret, by rw [f3]; exact hkey3, ?_⟩
+  rw [f1, hrg, runClassical_append, removeIdentitiesList_sound _ (fun g hg => (hg2.gates_ok g hg).2.1),
+    ← runClassical_append]
+  have hN : s.qc.numQubits = s2.qc.numQubits := f4.trans hrn
+  have hlen : (initState x s.qc.numQubits).length = s.qc.numQubits :=
+    initState_length x _ (by rw [hN, hx]; exact hnin2)
+  have hspec := congrFun (runF_spec (s2.qc.gates.toList ++ extra') (initState x s.qc.numQubits) (by
+    intro g hg w hw
+    rw [hlen]
+    rcases List.mem_append.mp hg with hg | hg
+    · rw [hN]; exact (hg2.gates_ok g hg).2.2.1 w hw
+    · exact (hgs.gates_ok g (by rw [f1]; exact List.mem_append_right _ hg)).2.2.1 w hw)) iret
+  refine hspec.trans ?_
+  rw [runF_append, untargeted_runF]
+  · exact hcur
+  · intro g hg hlast
+    have ht : g.target = iret := by unfold AGate.target; rw [hlast]; rfl
+    obtain ⟨hu, hk⟩ := f2 g hg
+    rw [ht] at hk
+    have : iret ∈ rets.filterMap (dictGet? s3.qc.qmap) := List.mem_filterMap.mpr ⟨r, hr hu, hkey3⟩
+    have : (rets.filterMap (dictGet? s3.qc.qmap)).contains iret = true := by simpa using this
+    rw [hk] at this; cases this
 
 end QV.Compiler
